@@ -97,8 +97,15 @@ def run_shard(shard, rec):
             elif r < 0.9:
                 head = rng.choice((b"\x80\x01", b"\x80\x02")) + (len(data) + 10).to_bytes(4, "big") + b"\0\0\0\0"
                 observe(rec, "Response", head + data if rng.random() < 0.8 else data, cc=rng.choice(ccs), enc=rng.choice((None, True)), origin="random")
-            elif r < 0.97:
+            elif r < 0.94:
                 observe(rec, "CommandResponseStream", data, origin="random")
+            elif r < 0.97:
+                # a failed response that nevertheless carries a body, with exactly consistent sizes
+                k = rng.choice((0, 0, 1, 4))
+                body = rng.choice((b"", (k).to_bytes(4, "big") + bytes(k), (k).to_bytes(4, "big") + bytes(k) + b"\0\0" + bytes([rng.randrange(256)]) + b"\0\0", data))
+                rc = rng.choice(gen.FAIL_CODES)
+                msg = rng.choice((b"\x80\x01", b"\x80\x02", b"\x00\xc4")) + (10 + len(body)).to_bytes(4, "big") + (rc & 0xFFFFFFFF).to_bytes(4, "big") + body
+                observe(rec, "Response", msg, cc=rng.choice(ccs), enc=rng.choice((None, True)), origin="failed-response-with-body")
             else:
                 # a response decoded without any command code
                 head = rng.choice((b"\x80\x01", b"\x80\x02")) + (len(data) + 10).to_bytes(4, "big") + rng.choice((b"\0\0\0\0", b"\0\0\1\1"))
